@@ -371,24 +371,57 @@ static void putHandles()
   }
 }
 
-// payloads designated only by a handle embedded in another payload get their id after the variables
+// payloads designated only by a handle embedded in another payload (the `next` handle of a counted object, the
+// Variants in a list payload, the children of an Xml element) get their id after the variables, in the order of the
+// payload table and, per payload, in the order of its embedded handles
+enum { FAMK = 4 };    // = famK of the model's slot layout: boxed elements / children per payload
+static void closeOne(const void* target, int kind)
+{
+  Rec* t = findRec(target);
+  if(!t || t->addr != (const char*)target)
+    return;
+  markPayload(t, kind);
+  if(t->kind == kind && t->pid < 0)
+  {
+    t->pid = npid;
+    pidRec[npid++] = (int)(t - rec);
+  }
+}
+
 static void closePids()
 {
   for(int i = 0; i < npid; ++i)
   {
     Rec& r = rec[pidRec[i]];
-    if(r.kind != 3 || r.frees != 0)
+    if(r.frees != 0)
       continue;
-    Node* n = (Node*)r.addr;
-    if(!n->next.refObj)
-      continue;
-    Rec* t = findRec(n->next.refObj);
-    if(t && t->addr == (char*)n->next.refObj)
-      markPayload(t, 3);
-    if(t && t->addr == (char*)n->next.refObj && t->kind == 3 && t->pid < 0)
+    if(r.kind == 3)
     {
-      t->pid = npid;
-      pidRec[npid++] = (int)(t - rec);
+      Node* n = (Node*)r.addr;
+      if(n->next.refObj)
+        closeOne(n->next.refObj, 3);
+    }
+    else if(r.kind == 1)
+    {
+      Variant::Data* d = (Variant::Data*)r.addr;
+      if(d->type == Variant::listType)
+      {
+        const List<Variant>* l = (const List<Variant>*)(d + 1);
+        for(List<Variant>::Iterator it = l->begin(), end = l->end(); it != end; ++it)
+          if(it->data->ref)
+            closeOne(it->data, 1);
+      }
+    }
+    else if(r.kind == 2)
+    {
+      Xml::Variant::Data* d = (Xml::Variant::Data*)r.addr;
+      if(d->type == Xml::Variant::elementType)
+      {
+        const Xml::Element* e = (const Xml::Element*)(d + 1);
+        for(List<Xml::Variant>::Iterator it = e->content.begin(), end = e->content.end(); it != end; ++it)
+          if(it->data != &Xml::Variant::nullData)
+            closeOne(it->data, 2);
+      }
     }
   }
 }
@@ -442,7 +475,7 @@ static void putPayload(int pid)
       const List<Variant>* l = (const List<Variant>*)(d + 1);
       tag = 13;
       for(List<Variant>::Iterator i = l->begin(), end = l->end(); i != end && len < sizeof(buf); ++i)
-        buf[len++] = (unsigned char)i->toInt();
+        buf[len++] = i->data->ref ? 0 : (unsigned char)i->toInt();    // a boxed element is printed as an embedded handle
     }
     else tag = 100 + (int)d->type;
     break;
@@ -479,6 +512,28 @@ static void putPayload(int pid)
     Node* n = (Node*)r.addr;
     printf(">");
     putPtrTok(n->next.refObj, n->next.obj);
+  }
+  else if(tag == 13)
+  {
+    const List<Variant>* l = (const List<Variant>*)((Variant::Data*)r.addr + 1);
+    printf(">");
+    if(l->isEmpty()) printf("-");
+    for(List<Variant>::Iterator i = l->begin(), end = l->end(); i != end; ++i)
+    {
+      if(i != l->begin()) printf(",");
+      if(i->data->ref) putBlockTok(i->data, 1); else printf("n");
+    }
+  }
+  else if(tag == 23)
+  {
+    const Xml::Element* e = (const Xml::Element*)((Xml::Variant::Data*)r.addr + 1);
+    printf(">");
+    if(e->content.isEmpty()) printf("-");
+    for(List<Xml::Variant>::Iterator i = e->content.begin(), end = e->content.end(); i != end; ++i)
+    {
+      if(i != e->content.begin()) printf(",");
+      if(i->data != &Xml::Variant::nullData) putBlockTok(i->data, 2); else printf("n");
+    }
   }
 }
 
@@ -520,6 +575,7 @@ static const struct { const char* name; const char* args; } OPTAB[] = {
   {"xcopy", "ii"}, {"xassign", "ii"}, {"xclear", "i"}, {"xsets", "ih"}, {"xelem", "ih"},
   {"pnew", "in"}, {"pcopy", "ii"}, {"passign", "ii"}, {"pclear", "i"}, {"pswap", "ii"}, {"praw", "ii"}, {"pctor", "ii"},
   {"plink", "ii"}, {"pnext", "i"}, {"pnextof", "ii"},
+  {"vpushv", "ii"}, {"vgetv", "iin"}, {"xaddc", "ii"}, {"xgetc", "iin"},
   {0, 0}};
 
 static bool parseOp(char** tok, int ntok, OpRec& o)
@@ -616,6 +672,25 @@ static bool execOp(const OpRec& o)
     else if(!strcmp(n, "vseta")) { Array<Variant> a; a.append(Variant((int)s)); *V[d] = a; }
     else if(!strcmp(n, "vputm")) { char k = (char)o.b; V[d]->toMap().append(String(&k, 1), Variant((int)o.c)); }
     else if(!strcmp(n, "vsetm")) { char k = (char)o.b; HashMap<String, Variant> m; m.append(String(&k, 1), Variant((int)o.c)); *V[d] = m; }
+    else if(!strcmp(n, "vpushv"))
+    {
+      // a list payload holding (possibly shared) Variants; the model's slot layout has FAMK embedded slots per payload
+      usize len = V[d]->getType() == Variant::listType ? ((const Variant*)V[d])->toList().size() : 0;
+      if(d == s || V[s]->isNull() || (V[s]->data->ref && len >= FAMK)) ok = false;
+      else V[d]->toList().append(*V[s]);
+    }
+    else if(!strcmp(n, "vgetv"))
+    {
+      // assignment from an element of a (possibly the own) list payload through the const accessor
+      const List<Variant>& l = ((const Variant*)V[s])->toList();
+      if(V[s]->getType() != Variant::listType || (usize)o.c >= l.size()) ok = false;
+      else
+      {
+        List<Variant>::Iterator it = l.begin();
+        for(int k = 0; k < o.c; ++k) ++it;
+        *V[d] = *it;
+      }
+    }
     break;
   case 'x':
     curKind = 2;
@@ -624,6 +699,23 @@ static bool execOp(const OpRec& o)
     else if(!strcmp(n, "xclear")) X[d]->clear();
     else if(!strcmp(n, "xsets")) *X[d] = String(bytes, o.len);
     else if(!strcmp(n, "xelem")) X[d]->toElement().type = String(bytes, o.len);
+    else if(!strcmp(n, "xaddc"))
+    {
+      usize len = X[d]->isElement() ? ((const Xml::Variant*)X[d])->toElement().content.size() : 0;
+      if(d == s || X[s]->isNull() || len >= FAMK) ok = false;
+      else X[d]->toElement().content.append(*X[s]);
+    }
+    else if(!strcmp(n, "xgetc"))
+    {
+      const List<Xml::Variant>& l = ((const Xml::Variant*)X[s])->toElement().content;
+      if(!X[s]->isElement() || (usize)o.c >= l.size()) ok = false;
+      else
+      {
+        List<Xml::Variant>::Iterator it = l.begin();
+        for(int k = 0; k < o.c; ++k) ++it;
+        *X[d] = *it;
+      }
+    }
     break;
   case 'p':
     curKind = 3;
